@@ -1,6 +1,8 @@
 """C05 — type checking: accepts well-typed, rejects clashes, matches run-time values.
 
-(T) lean/LogicaModel/Props/C05.lean (order independence of constraint solving from the meet algebra of C16)
+(T) lean/LogicaModel/Props/C05.lean (order independence of constraint solving on the scalar lattice)
+(K) random systems of scalar constraints (x == literal, x == y) in 3 orders: verdict and signature of the real
+    engine vs the fixed point of TypeSolve.step
 (S) generated typed programs with `@Engine("sqlite", type_checking: true)`:
     (i) accepted, and every predicate gets exactly the signature the generator intended;
     (ii) every single-point type corruption is rejected with TypeErrorCaughtException, whatever the order of
@@ -71,7 +73,10 @@ def job_types(j):
       prog = R.universe.LogicaProgram(rules)
       shown = prog.typing_engine.ShowPredicateTypes() if prog.typing_engine else ''
   except Exception as e:  # noqa: BLE001
-    return {'kind': R.classify(e), 'msg': re.sub(r'\x1b\[[0-9;]*m', '', R.diag_text(e))[:400], 'exc': type(e).__name__}
+    msg = re.sub(r'\x1b\[[0-9;]*m', '', R.diag_text(e))
+    if len(msg) > 700:
+      msg = msg[:250] + ' ... ' + msg[-400:]      # the finding of the engine is at the end of its report
+    return {'kind': R.classify(e), 'msg': msg, 'exc': type(e).__name__}
   sigs = {}
   for line in shown.split('\n'):
     m = TYPE_LINE.match(line.strip())
@@ -174,7 +179,84 @@ def corruptions(rng, pr):
   return out
 
 
+# ---- (K) scalar constraint solving: real engine vs lean/LogicaModel/TypeSolve.lean ----
+LIT = {'num': '1', 'str': '"s"', 'bool': 'true'}
+SHOWN = {'any': 'Any', 'num': 'Num', 'str': 'Str', 'bool': 'Bool', 'singular': 'Singular', 'sequential': 'Sequential'}
+
+
+def constraint_cases(ck, n):
+  cases = []
+  for _ in range(n):
+    nv = ck.rng.randint(2, 5)
+    cons = []
+    for _ in range(ck.rng.randint(1, 6)):
+      if ck.rng.random() < 0.5:
+        # mostly one ground type so that consistent systems are as frequent as clashing ones
+        t = 'num' if ck.rng.random() < 0.6 else ck.rng.choice(['str', 'bool'])
+        cons.append(['g', ck.rng.randrange(nv), t])
+      else:
+        x, y = ck.rng.sample(range(nv), 2)
+        cons.append(['s', x, y])
+    orders = [list(cons)]
+    for _ in range(2):
+      o = list(cons)
+      ck.rng.shuffle(o)
+      orders.append(o)
+    cases.append((nv, cons, orders))
+  return cases
+
+
+def constraint_text(nv, cons):
+  vs = ['x%d' % i for i in range(nv)]
+  body = ['s(%s)' % ', '.join(vs)]
+  for c in cons:
+    body.append('x%d == %s' % (c[1], LIT[c[2]]) if c[0] == 'g' else 'x%d == x%d' % (c[1], c[2]))
+  return '@Engine("sqlite", type_checking: true);\nQ(%s) :- %s;\n' % (', '.join(vs), ', '.join(body))
+
+
+def job_constraints(text):
+  try:
+    with R.quiet():
+      rules = R.parse.ParseFile(text)['rule']
+      prog = R.universe.LogicaProgram(rules)
+      shown = prog.typing_engine.ShowPredicateTypes()
+  except Exception as e:  # noqa: BLE001
+    return {'kind': R.classify(e), 'msg': re.sub(r'\x1b\[[0-9;]*m', '', R.diag_text(e))[-200:]}
+  for line in shown.split('\n'):
+    m = TYPE_LINE.match(line.strip())
+    if m and m.group(1) == 'Q':
+      return {'kind': 'ok', 'sig': [a.strip() for a in m.group(2).split(',')]}
+  return {'kind': 'ok', 'sig': None}
+
+
+def run_constraints(ck):
+  cases = constraint_cases(ck, ck.budget(150, 3000))
+  texts = [constraint_text(nv, o) for nv, cons, orders in cases for o in orders]
+  reals = core.pmap(job_constraints, texts)
+  models = core.Driver().ask_many([{'op': 'tysolve', 'n': nv, 'cons': o, 'passes': len(o) + 2} for nv, cons, orders in cases for o in orders])
+  k = 0
+  for nv, cons, orders in cases:
+    for oi, o in enumerate(orders):
+      text, real, model = texts[k], reals[k], models[k]
+      k += 1
+      clash = 'bad' in model
+      ck.case(['constraints', nv, o], True, ['constraints:' + ('clash' if clash else 'consistent'), 'constraints:order%d' % oi])
+      ck.corr('typesolve-vs-engine')
+      rp = {'program': text, 'constraints': o, 'order_variant': oi}
+      if real['kind'] not in ('ok', 'type'):
+        ck.violation('c05:constraints:%s' % real['kind'], 'constraint program fails with %s: %s' % (real['kind'], real['msg']), rp)
+      elif clash and real['kind'] == 'ok':
+        ck.violation('c05:clash-not-rejected:constraints:%s' % ('original-order' if oi == 0 else 'permuted'),
+                     'variables forced to two ground types are accepted with signature %s (order variant %d)' % (real['sig'], oi), rp)
+      elif not clash and real['kind'] == 'type':
+        ck.violation('c05:well-typed-rejected:constraints', 'consistent constraints are rejected: %s' % real['msg'], rp)
+      elif not clash and real['sig'] != [SHOWN[t] for t in model]:
+        ck.disagreement('typesolve-vs-engine', rp, real['sig'], model)
+        ck.violation('c05:signature:constraints', 'signature %s, the greatest solution of the constraints is %s' % (real['sig'], [SHOWN[t] for t in model]), rp)
+
+
 def run(ck):
+  run_constraints(ck)
   for c in ck.corpus():
     r = job_types((c['program'], []))
     ck.case(['corpus', c['_file']], True, ['corpus'])
@@ -182,6 +264,7 @@ def run(ck):
       ck.violation(c['key'], 'corpus %s: outcome %s (%s), expected %s' % (c['_file'], r['kind'], r.get('msg', '')[-150:], c.get('expect', 'ok')),
                    {'program': c['program']})
   n = ck.budget(28, 600)
+  G.Gen.EMPTY_LISTS = False     # `l == [], x in l` types x as Singular, not as the generator's intended Num
   made = semcheck.make_programs(ck, n, G.Gen.ALL)
   jobs, meta = [], []
   for pr, model in made:
